@@ -638,10 +638,13 @@ fn tree_chain_cfgs(prop: &'static str, chains: &[Vec<StageKind>], nkeys: u8) -> 
     let mut cfgs = Vec::new();
     for kind in chains {
         for batched in [false, true] {
-            for len in [66usize, 131] {
+            for (len, allpass) in [(66usize, false), (131, false), (70, true), (3, false)] {
                 for pre in [0u8, 1, 2] {
+                    if len < 66 && pre > 0 {
+                        continue;
+                    }
                     for capacity in [16usize, 1] {
-                        let init: Vec<u8> = (0..len).map(|i| ((i * 7 + i / 3) % nkeys as usize) as u8).collect();
+                        let init: Vec<u8> = (0..len).map(|i| if allpass { nkeys - 1 } else { ((i * 7 + i / 3) % nkeys as usize) as u8 }).collect();
                         cfgs.push(Cfg {
                             stages: kind.clone(),
                             batched,
@@ -649,7 +652,7 @@ fn tree_chain_cfgs(prop: &'static str, chains: &[Vec<StageKind>], nkeys: u8) -> 
                             nkeys,
                             capacity,
                             alphabet: Alphabet::Large,
-                            max_len: (len + 3) as u8,
+                            max_len: (len + 73) as u8,
                             max_limit: 3,
                             limit_values: vec![0, 2, 64, 65, 70, 200],
                             policy: Policy::Manual,
